@@ -169,8 +169,75 @@ func TestC04TimerList(t *testing.T) {
 			rep.Cap("deadline")
 		}
 	}
-	rep.Evaluations = seqs.Load()
-	rep.Paths = seqs.Load()
+	// second family: many distinct seconds. Every arrival order of 6 and of 7 deadlines lying in different seconds, one key
+	// each, then one sweep at each of 8 instants (fresh list per case), then the far-future sweep: whatever the list keeps
+	// its seconds in (a heap, a skip list), the order of arrival must not decide what a sweep finds due.
+	var orderCases int64
+	ladder := []time.Duration{0, 1 * time.Second, 3 * time.Second, 7 * time.Second, 10 * time.Second, 11 * time.Second, 14 * time.Second}
+	sweeps := []time.Duration{-1500 * time.Millisecond, 1500 * time.Millisecond, 2500 * time.Millisecond, 4500 * time.Millisecond, 8500 * time.Millisecond, 12500 * time.Millisecond, 15500 * time.Millisecond, 5500 * time.Millisecond}
+	for _, impl := range []struct {
+		name string
+		mk   func() expiration.List
+	}{{"pqlist", expiration.VerifNewPQList}, {"skiplist", expiration.VerifNewSkipList}} {
+		var perms [][]int
+		for _, p := range permutations(len(ladder)) {
+			perms = append(perms, p, p[:len(p)-1])
+		}
+		vk.ParallelFor(len(perms), func(pi int) {
+			perm := perms[pi]
+			for _, sw := range sweeps {
+				names := []string{}
+				for _, k := range perm {
+					names = append(names, fmt.Sprintf("Insert(k%d,T%+v)", k, ladder[k]))
+				}
+				names = append(names, fmt.Sprintf("Expire(T%+v)", sw))
+				if wanted != nil && !replayMatch(wanted, map[string]any{"list": impl.name, "ops": names}) {
+					continue
+				}
+				atomic.AddInt64(&orderCases, 1)
+				l := impl.mk()
+				for _, k := range perm {
+					l.Insert(k, T.Add(ladder[k]))
+				}
+				got := map[int]int{}
+				for _, g := range l.Expire(T.Add(sw)) {
+					got[g.(int)]++
+				}
+				bad := ""
+				for _, k := range perm {
+					due := sw-ladder[k] > time.Second
+					early := ladder[k]-sw > time.Second
+					switch {
+					case got[k] > 1:
+						bad = fmt.Sprintf("reported k%d %d times", k, got[k])
+					case due && got[k] == 0:
+						bad = fmt.Sprintf("did not report k%d, due since T%+v", k, ladder[k])
+					case early && got[k] != 0:
+						bad = fmt.Sprintf("reported k%d, not due before T%+v", k, ladder[k])
+					}
+				}
+				if bad == "" {
+					rest := map[int]int{}
+					for _, g := range l.Expire(T.Add(1000 * time.Second)) {
+						rest[g.(int)]++
+					}
+					for _, k := range perm {
+						if got[k]+rest[k] != 1 {
+							bad = fmt.Sprintf("k%d was reported %d time(s) by the sweep and %d by the final sweep at T+1000s", k, got[k], rest[k])
+						}
+					}
+				}
+				if bad != "" {
+					rep.Violate(vk.Violation{Sig: impl.name + ":c04-list-arrival-order", Msg: fmt.Sprintf("[%s] after %v: the sweep %s", impl.name, names, bad), Replay: map[string]any{"list": impl.name, "ops": names}})
+				}
+			}
+		})
+	}
+	rep.Extra["arrival_order_cases"] = orderCases
+	rep.Floor("arrival_orders", 1000, orderCases)
+	rep.Bounds["arrival_orders"] = "every order of 6 and 7 deadlines in distinct seconds (T+0,1,3,7,10,11,14 s) x one sweep at 8 instants, fresh list each"
+	rep.Evaluations = seqs.Load() + orderCases
+	rep.Paths = seqs.Load() + orderCases
 	rep.Transitions = steps.Load()
 	rep.States = outcomes.Len()
 	rep.Outcomes = outcomes.Len()
